@@ -214,11 +214,12 @@ MutS(s) ==
                           \cup (IF "clobber" \in DOMAIN s THEN {M([s EXCEPT !.clobber = r.x], "clobber:" \o r.m) : r \in MutVar(s.clobber)} ELSE {})
       [] OTHER -> {}
 
-MutSlot(slot) == UNION {{M([slot EXCEPT ![j] = r.x], r.m) : r \in MutS(slot[j])} : j \in 1..Len(slot)}
+\* `at`: the kind of the slot statement that holds the mutated point (for finding keys)
+MutSlot(slot) == UNION {{[x |-> [slot EXCEPT ![j] = r.x], m |-> r.m, at |-> slot[j].k] : r \in MutS(slot[j])} : j \in 1..Len(slot)}
 
 VariantsOf(b) ==
-    << [base |-> b.name, cls |-> b.cls, m |-> "none", slot |-> b.slot] >>
-    \o SetToSeq({[base |-> b.name, cls |-> b.cls, m |-> r.m, slot |-> r.x] : r \in {r \in MutSlot(b.slot) : r.x # b.slot}})
+    << [base |-> b.name, cls |-> b.cls, m |-> "none", at |-> "none", slot |-> b.slot] >>
+    \o SetToSeq({[base |-> b.name, cls |-> b.cls, m |-> r.m, at |-> r.at, slot |-> r.x] : r \in {r \in MutSlot(b.slot) : r.x # b.slot}})
 AllVariants == FlattenSeq([j \in 1..Len(Bases) |-> VariantsOf(Bases[j])])
 
 \* ---------------------------------------------------------------- positions
@@ -271,7 +272,7 @@ CaseOf(j) ==      \* j: position in Sel
         p == Program(s, v)
         ok == ProgramOk(p)
     IN [id |-> j, skel |-> s, variant |-> v, pos |-> Skels[s], in_free |-> \E d \in 1..Len(Skels[s]) : Skels[s][d] = "free",
-        base |-> Variants[v].base, cls |-> Variants[v].cls, m |-> Variants[v].m,
+        base |-> Variants[v].base, cls |-> Variants[v].cls, m |-> Variants[v].m, at |-> Variants[v].at,
         ok |-> ok, ok_relaxed |-> ProgramOk([p EXCEPT !.gamma = Gamma0Relaxed]),
         types |-> IF ok THEN ProgramTypes(p) ELSE <<>>, body |-> p.body]
 \* every case is computed once, parked, exported, and then visited as one TLC state
